@@ -46,16 +46,16 @@ _N1B = pick(2, 3)  # split stage: both subjects (second one: one code point fewe
 _N2 = pick(2, 3)  # value extraction, plain keys
 _N2U = pick(1, 2)  # value extraction through the URL decoder
 _N3 = pick(1, 2)  # pipeline
-_NH = pick(1, 3)  # arbitrary header, any code point
+_NH = pick(1, 2)  # arbitrary header (two characters: latin-1 only, see _CPH2; all of Unicode for len 2, or len 3, does not finish in 900 s CPU)
 _NB = pick(4, 7)  # blank header
-_NA = pick(3, 5)  # structural-alphabet header
+_NA = pick(3, 4)  # structural-alphabet header (5 does not finish within the thorough budget: 27000+ paths)
 _CP = 0x110000
 _CPH = 0x110000
 _CP3 = pick(0x100, 0x110000)  # pipeline item: quick = latin-1 (what a WSGI server can deliver); Unicode white space is in the CN item
 BOUNDS = (
     f"all characters = every code point 0..0x10FFFF; split stage: one hostile value len<={_N1} in any of 6 slots / len<={_N1S} as first Subject, or both Subjects len<={_N1B}/{_N1B - 1}; "
     f"value extraction: len<={_N2} (Subject/Hash/DNS), len<={_N2U} (URI/By); pipeline: hostile suffix len<={_N3} (code points below {_CP3:#x}) in either Subject; "
-    f"arbitrary header: any string len<={_NH}, and every string len<={_NA} over the structural alphabet \" \\ , ; = space % a B; blank headers: len<={_NB} over space/comma/tab"
+    f"arbitrary header: any single character, any latin-1 string len<={_NH}, and every string len<={_NA} over the structural alphabet \" \\ , ; = space % a B; blank headers: len<={_NB} over space/comma/tab"
 )
 OUTSIDE = (
     "PEM-in-header factories (cryptography); Cert field contents; urllib.parse.unquote (stdlib, trusted not to raise on str); whether the zero-length header value '' counts as 'missing' or 'empty' "
@@ -563,11 +563,15 @@ def _sig_arbitrary(args: dict, conc) -> str:  # type: ignore[no-untyped-def]
     return "C43:arbitrary-header:" + (r.split(": ", 1)[0] if r else "wrong-outcome")
 
 
-@cond(q=60, t=900, encoded=ENCODED, bound="any %d code points below %#x (select=first; select=last too for len<=1)" % (_NH, _CPH),
+_CPH2 = 0x100  # headers longer than one character: latin-1 (what a WSGI server can deliver); one character: all of Unicode
+
+
+@cond(q=60, t=900, encoded=ENCODED, bound="any single code point below %#x (select first and last), and any %d code points below %#x (select=first)" % (_CPH, _NH, _CPH2),
       replay=_replay_arbitrary, signature=_sig_arbitrary)
 def arbitrary_header_only_authfailure(n: int, i0: int, i1: int, i2: int, i3: int) -> bool:
     """
     pre: 0 <= n <= _NH and 0 <= i0 < _CPH and 0 <= i1 < _CPH and 0 <= i2 < _CPH and 0 <= i3 < _CPH
+    pre: n <= 1 or (i0 < _CPH2 and i1 < _CPH2)
     post: _
     """
     raw = _raw_of(n, [i0, i1, i2, i3])
